@@ -1,4 +1,4 @@
-CONSTANTS MaxTx = 4  MaxH = 8  Level = 3
+CONSTANTS DispModes = {FALSE}  MaxTx = 4  MaxH = 8  Level = 3
 INIT Init
 NEXT Next
 VIEW view
